@@ -306,10 +306,12 @@ def _columns(st, K=None, default_schema=None):
         for c, sname in st["update"]:
             for s in _expand(u, sname, K):
                 pairs.add((s, f"{tgt}.{c}"))
-        ic, iv = st["insert"]
-        for c, sname in zip(ic, iv):
-            for s in _expand(u, sname, K):
-                pairs.add((s, f"{tgt}.{c}"))
+        for arm in ("insert", "insert2"):
+            if st.get(arm):
+                ic, iv = st[arm]
+                for c, sname in zip(ic, iv):
+                    for s in _expand(u, sname, K):
+                        pairs.add((s, f"{tgt}.{c}"))
         return pairs
     raise AssertionError(k)
 
